@@ -37,6 +37,7 @@ func C09(r *core.Run) {
 // C11 — BCL parser is total and every diagnostic points inside the file.
 func C11(r *core.Run) {
 	panicScope(r, entriesC11...)
+	referenceEntryGuard(r)
 	positionsAssigned(r)
 	positionsCoverConsumed(r)
 	errorListDiscipline(r)
